@@ -354,6 +354,7 @@ int main(void) {
 			if (n < 0) fputs("BADREQ", stdout); else handle(op, args, n, stdout);
 			fputc('\n', stdout);
 			fflush(stdout);
+			HARNESS_GCOV_DUMP();
 			_exit(0);
 		}
 		waitpid(pid, &status, 0);
